@@ -26,6 +26,16 @@ struct Tracked {
 	int v;
 	Tracked(Other const&) noexcept(false);
 	Tracked& operator=(Other const&) noexcept(false);
+#ifdef TRACKED_TDC
+	Tracked() = default;                               // trivially default constructible (and destructible) but not trivial: the copy operations are user provided
+	Tracked(Tracked const&) noexcept(false);
+	Tracked& operator=(Tracked const&) noexcept(false);
+	bool operator==(Tracked const&) const;
+	bool operator<(Tracked const&) const;
+};
+static_assert(std::is_trivially_default_constructible_v<Tracked> && !std::is_trivial_v<Tracked>);
+#define TRACKED_DEFINED 1
+#endif
 #ifdef TRACKED_NOTHROW_OWN
 	Tracked() noexcept;                                // every special member of the element itself is noexcept; only Tracked <- Other can throw
 	Tracked(Tracked const&) noexcept;
@@ -212,8 +222,10 @@ extern "C" void d_prim_helpers(A& al, Tracked* first, Tracked* dest, long n, Tra
 	multi::xtd::alloc_uninitialized_move_n(al, first, n, dest);
 	multi::xtd::alloc_uninitialized_fill_n(al, dest, n, v);
 	multi::uninitialized_move_n(al, first, n, dest);
+#ifndef TRACKED_TDC
 	multi::uninitialized_default_construct_n(al, dest, n);
 	multi::uninitialized_value_construct_n(al, dest, n);
+#endif
 }
 #endif
 """)
